@@ -568,7 +568,9 @@ func (in *c20Inner) setup() error {
 		if err != nil {
 			return err
 		}
-		in.closers = append(in.closers, cleanup)
+		// (for bbolt the returned cleanup is a no-op: close the handle ourselves,
+		// or every world leaks an mmap of its deleted file)
+		in.closers = append(in.closers, cleanup, func() { _ = backend.Close() })
 		store, err = graphdb.NewKVStore(backend, graphdb.WithBatchCommitInterval(c20BatchCommit),
 			graphdb.WithRejectCacheSize(256), graphdb.WithChannelCacheSize(256))
 		if err != nil {
